@@ -49,10 +49,18 @@ type VerifDump struct {
 	WaitIncomingArmed bool
 }
 
+// VerifShapeOnly, when non-zero, makes the dumps report only how many
+// entries each segment holds (zero-valued entries): nothing is read, and in
+// particular a deferred sort is not triggered by looking.
+var VerifShapeOnly int32
+
 func verifDumpSegment(seg Segment) []VerifEntry {
 	a, ok := seg.(*segment)
 	if !ok || a == nil {
 		return nil
+	}
+	if atomic.LoadInt32(&VerifShapeOnly) != 0 {
+		return make([]VerifEntry, a.Len())
 	}
 	a.RequestSort(true)
 	rv := make([]VerifEntry, 0, a.Len())
